@@ -5,6 +5,7 @@ import (
 	"encoding/base64"
 	"fmt"
 	"strconv"
+	"strings"
 	"time"
 
 	"github.com/alicebob/miniredis/v2"
@@ -37,6 +38,7 @@ type storeRig struct {
 	clock *vclock
 	inst  []oidc.SessionStore
 	mr    *miniredis.Miniredis
+	hooks []*faultHook // one per Redis client: command-level fault injection (inactive unless armed)
 	abs   time.Duration
 	idle  time.Duration
 }
@@ -55,6 +57,9 @@ func newStoreRig(kind string, abs, idle time.Duration, startNs int64) *storeRig 
 	rig.clock.mr = mr
 	for i := 0; i < 2; i++ {
 		cl := redis.NewClient(&redis.Options{Addr: mr.Addr()})
+		h := &faultHook{}
+		cl.AddHook(h)
+		rig.hooks = append(rig.hooks, h)
 		s, err := oidc.NewRedisStore(oc, cl, abs, idle)
 		must(err)
 		rig.inst = append(rig.inst, s)
@@ -113,9 +118,15 @@ type storeOp struct {
 	Tok  *oidc.TokenResponse `json:"tok,omitempty"`
 	Auth *oidc.AuthorizationState `json:"auth,omitempty"`
 	D    time.Duration       `json:"d,omitempty"`
+	Faults []int             `json:"redis_command_faults,omitempty"` // per issued command: 0 ok, 1 fails unapplied, 2 applied but reply lost
 }
 
 func (o storeOp) wire() string {
+	if o.Faults != nil {
+		p := o
+		p.Faults = nil
+		return "sopf " + faultsWire(o.Faults) + " " + strings.TrimPrefix(p.wire(), "sop ")
+	}
 	switch o.Kind {
 	case "tick":
 		return fmt.Sprintf("tick %d", int64(o.D))
